@@ -220,18 +220,20 @@ func (w *vWorld) applyCred(req *http.Request, cred vCred, user string) vProven {
 		// key "tlsdenied" is on the deny list of worlds built with vDeniedFP()
 		w.vAttachTLS(req, w.userCert(user, vKey("p256", "tlsdenied").Public(), time.Hour))
 	case "ipcert-inside":
-		req.RemoteAddr = "10.20.30.40:4000"
-		if w.vAttachTLS(req, w.roleCert(user, []string{"10.20.0.0/16"}, vKey("p256", "tlsclient").Public(), 0)) {
+		// a netblock that is not byte aligned: inside the /20 ...
+		req.RemoteAddr = "10.20.17.40:4000"
+		if w.vAttachTLS(req, w.roleCert(user, []string{"10.20.16.0/20"}, vKey("p256", "tlsclient").Public(), 0)) {
 			if w.isAutomation(user) {
 				return vProven{User: user, Bits: AuthTypeIPCertificate}
 			}
 		}
 	case "ipcert-outside":
-		req.RemoteAddr = "10.21.0.1:4000"
-		w.vAttachTLS(req, w.roleCert(user, []string{"10.20.0.0/16"}, vKey("p256", "tlsclient").Public(), 0))
+		// ... and outside the /20 although inside the enclosing /16
+		req.RemoteAddr = "10.20.200.7:4000"
+		w.vAttachTLS(req, w.roleCert(user, []string{"10.20.16.0/20"}, vKey("p256", "tlsclient").Public(), 0))
 	case "ipcert-inside-nonautomation":
-		req.RemoteAddr = "10.20.30.40:4000"
-		w.vAttachTLS(req, w.roleCert(vUserHuman, []string{"10.20.0.0/16"}, vKey("p256", "tlsclient").Public(), 0))
+		req.RemoteAddr = "10.20.17.40:4000"
+		w.vAttachTLS(req, w.roleCert(vUserHuman, []string{"10.20.16.0/20"}, vKey("p256", "tlsclient").Public(), 0))
 	case "adminca-cert":
 		w.vAttachTLS(req, w.adminCA.issue(user, vKey("p256", "tlsclient").Public(), time.Now().Add(-time.Minute), time.Now().Add(time.Hour), nil))
 	case "tls-nochain":
